@@ -37,8 +37,12 @@ def run(tier, seed):
     thorough = tier == "thorough"
     h = me.hierarchy
     total = 0
-    for kind in ("T", "L"):
+    for kind in ("T", "T3", "L"):
         cfg = "MC_C17_%s%s" % (kind, "_T" if thorough else "")
+        if kind == "T3":
+            if thorough:
+                continue                       # the thorough T model already has three levels
+            cfg, kind = "MC_C17_T3", "T"
         res = tlc.run("MC_C17", cfg=cfg, timeout=3400, heap="8g")
         rows = res["rows"]["ROW"]
         if len(rows) * 2 != res["distinct"]:
